@@ -54,6 +54,11 @@ var c16defects = []c16defect{
 		c.Services = append(c.Services, Service{Name: "smShared", Constructor: P("NewT"), Args: []any{"@aaaMissing", "@smCtx", "@zzzMissing", "%aaaGone%"}, Scope: P("shared")},
 			Service{Name: "smCtx", Constructor: P("NewT"), Scope: P("contextual")})
 	}, `"smShared"`},
+	{"token", "token", func(c *Cfg) {
+		// malformed references made of name characters only: a compile error, never a "missing parameter"
+		c.Params = append(c.Params, Param{"ptTrailing", "%host.%"}, Param{"ptDouble", "x%db..name%"}, Param{"ptDash", "%time-%y"})
+		c.Services = append(c.Services, Service{Name: "stToken", Constructor: P("NewT"), Args: []any{"%a_%"}})
+	}, `"%host.%"`},
 	{"grammar", "grammar", func(c *Cfg) {
 		c.Services = append(c.Services, Service{Name: "1bad", Constructor: P("NewT")})
 	}, `"1bad"`},
@@ -76,6 +81,7 @@ var c16prefix = map[string]string{
 	"cycle":    "output.ValidateCircularDeps:",
 	"scope":    "output.ValidateServicesScopes:",
 	"grammar":  "compiler.StepValidateInput:",
+	"token":    "compiler.StepCompile",
 }
 
 func c16base() *Cfg {
@@ -95,7 +101,7 @@ func init() {
 	Register(&Check{
 		ID:    "C16",
 		Level: "exploration",
-		Rule: "all subsets of size <= k (k=5 quick, all 1024 subsets thorough) of 12 injected defects {missing param x3 positions, missing service x3 positions, param cycle, service cycle, scope violation, scope violation on a service that also has missing dependencies, grammar violation} x the 4 combinations of --ignore-missing-params / --ignore-missing-services, each with and without --stub; " +
+		Rule: "all subsets of size <= k (k=5 quick, all subsets thorough) of 13 injected defects {malformed references made of name characters (compile stage), missing param x3 positions, missing service x3 positions, param cycle, service cycle, scope violation, scope violation on a service that also has missing dependencies, grammar violation} x the 4 combinations of --ignore-missing-params / --ignore-missing-services, each with and without --stub; " +
 			"non-trivial = at least one defect and at least one flag set; distinct = distinct (defect set, flags)",
 		Assumptions: []string{
 			"diagnostic classes are told apart by the rule prefix the tool prints; lines are compared as ordered lists between flag combinations",
@@ -113,12 +119,15 @@ func init() {
 					w.Case(fmt.Sprintf("defects%v", sel), func(c *C) {
 						cfg := c16base()
 						var ids []string
-						hasGrammar := false
+						hasGrammar, hasToken := false, false
 						for _, i := range sel {
 							c16defects[i].apply(cfg)
 							ids = append(ids, c16defects[i].id)
 							if c16defects[i].class == "grammar" {
 								hasGrammar = true
+							}
+							if c16defects[i].class == "token" {
+								hasToken = true
 							}
 						}
 						y := cfg.YAML()
@@ -163,7 +172,7 @@ func init() {
 								}
 								for _, i := range sel {
 									d := c16defects[i]
-									if hasGrammar && d.class != "grammar" {
+									if hasGrammar && d.class != "grammar" || hasToken && !hasGrammar && d.class != "token" {
 										continue // masked by the earlier stage
 									}
 									found := false
@@ -195,7 +204,7 @@ func init() {
 										drop = true
 									}
 								}
-								if hasGrammar {
+								if hasGrammar || hasToken {
 									drop = false
 								}
 								if !drop {
